@@ -1416,6 +1416,19 @@ class XMLSchemaBase(XsdValidator, ElementPathMixin[Union[SchemaType, XsdElement]
                     xsd_element = schema.get_element(elem.tag, namespaces=namespaces)
                 else:
                     xsd_element = schema.get_element(elem.tag, schema_path, namespaces)
+                    if xsd_element is not None and xsd_element.parent is None and ancestors \
+                            and len(xsd_ancestors) == len(ancestors) \
+                            and isinstance(xsd_ancestors[-1], XsdElement):
+                        # A global declaration found by name: if the content model of the
+                        # parent admits the child with a wildcard, the wildcard decides
+                        # how it's processed (e.g. processContents="skip")
+                        group = xsd_ancestors[-1].type.model_group
+                        matched = None if group is None else group.match_element(elem.tag)
+                        if isinstance(matched, XsdAnyElement):
+                            if matched.process_contents == 'skip':
+                                continue
+                            xsd_element = matched
+
                 if xsd_element is None:
                     if nm.XSI_TYPE in elem.attrib:
                         xsd_element = self.builders.create_element(elem.tag, self)
